@@ -667,7 +667,7 @@ func (ex *Exec) closeLoop(fr *Frame, li *loopInfo, st *State) {
 		}
 		var dec *Term = tb.False
 		for i := len(now) - 1; i >= 0; i-- {
-			lt := tb.And(tb.Lt(now[i], ctx.measure[i]), tb.Ge(ctx.measure[i], tb.Int(0)))
+			lt := tb.And(ex.lt(now[i], ctx.measure[i]), ex.geZero(ctx.measure[i]))
 			eq := tb.Eq(now[i], ctx.measure[i])
 			dec = tb.Or(lt, tb.And(eq, dec))
 		}
